@@ -1,0 +1,19 @@
+//go:build !verif
+
+package desync
+
+import "os"
+
+// Verification hooks. Without the "verif" build tag these are empty and get
+// inlined away. See verif_on.go.
+
+type verifCloneOps interface {
+	CanClone(dstFile, srcFile string) bool
+	CloneRange(dst, src *os.File, srcOffset, srcLength, dstOffset uint64) error
+}
+
+func verifYield(point string) {}
+
+func verifClone() verifCloneOps { return nil }
+
+func verifPartialWrite(point string, f *os.File, b []byte) {}
